@@ -140,7 +140,7 @@ def run(corrupt=None):
     thorough = ck.tier == "thorough"
     n = 3
     recs = []
-    for job, outl, mt, mm, w in (("c16_counts", False, 3, 1, False), ("c16_weighted", False, 2, 2, True), ("c16_outl", True, 2, 1, False)):
+    for job, outl, mt, mm, w in (("c16_counts", False, 3, 1, False), ("c16_weighted", False, 2, 2, True), ("c16_outl", True, 2, 1, False), ("c16_outl_w", True, 2, 2, True)):
         r = tlc_instances(ck, job, n, outl, mt, mm, w)
         if r.violated:
             raise tlc.TLCError("SummariesCons invariant violated at the model level: %s" % r.summary())
@@ -186,6 +186,9 @@ def run(corrupt=None):
     special = extra_instances(ck)
     workdir = env.scratch("c16_files")
     sample = rnd.sample(recs, min(len(recs), 150 if not thorough else 1500))
+    # weighted traces that contain a state without any clone (every data point an outlier) always go through the command
+    clone_less = [x for x in recs if x["weighted"] and len(x["trees"]) >= 2 and any(not e["t"]["f"] for e in x["trees"]) and any(e["t"]["f"] for e in x["trees"])]
+    sample += rnd.sample(clone_less, min(len(clone_less), 60 if not thorough else 400))
     rv = revisit if thorough else rnd.sample(revisit, min(len(revisit), 500))
     ftasks = [(i, rec, n) for i, rec in enumerate(sample)] + [(10000 + i, rec, 2) for i, rec in enumerate(rv)]
 
